@@ -2,10 +2,10 @@
    Proved: the coordinate map, the coding/intergenic partition, the intergenic SNP rule, the codon loop as a function
    of the feature's codons (which codon yields an aa: record, with which residue, alleles, feature and SNP list), the
    dictionary product = the standard genetic code, what the merged and the final list mention (none invented, none
-   dropped).  PARTIAL: the aa: statement is proved per feature (getAAsPair); that the sort and the duplicate removal keep
-   every aa: record is proved only under the stated aa_uniq side condition; GenBank /translation text is an input. *)
+   dropped).  PARTIAL: the aa: statement is proved per feature (getAAsPair); the final-list completeness needs pairwise distinct
+   feature names (or the weaker aa_uniq side condition); GenBank /translation text is an input. *)
 From Coq Require Import Floats.SpecFloat.
-From GF Require Import Base Alphabet Symbols FastaModel Float TopK CodonModel Indels VariantsModel VariantsProofs AaProofs.
+From GF Require Import Base Alphabet Symbols FastaModel Float TopK CodonModel Indels VariantsModel VariantsProofs AaProofs AaUniq.
 Open Scope N_scope.
 
 (* reference position p is looked up in its own alignment column, whatever insertions the alignment has *)
@@ -76,6 +76,17 @@ Theorem C04_nuc_mentions_complete : forall ref que gs,
   forall p, (1 <= p <= length (filter nongap ref))%nat -> dis ref que (ref_to_msa ref) p = true -> In p (flat_map snd out).
 Proof. exact nuc_mentions_complete. Qed.
 Print Assumptions C04_nuc_mentions_complete.
+
+(* ... and that side condition follows from pairwise distinct feature names (records of one feature differ in their
+   residue number, records of different features in the feature name): none dropped, none invented, final list *)
+Theorem C04_nuc_mentions_complete_names : forall ref que gs,
+  (forall g p, In g gs -> In p (g_pos g) -> (1 <= p <= length (filter nongap ref))%nat) ->
+  (forall g, In g gs -> (length (g_pos g) mod 3 = 0)%nat) ->
+  NoDup (map g_name gs) ->
+  forall out, variants_pair_traced ref que gs (inter_of gs (length (filter nongap ref))) = Ok out ->
+  forall p, (1 <= p <= length (filter nongap ref))%nat -> dis ref que (ref_to_msa ref) p = true -> In p (flat_map snd out).
+Proof. exact nuc_mentions_complete_names. Qed.
+Print Assumptions C04_nuc_mentions_complete_names.
 
 (* ---- the aa: rule ---- *)
 (* the codon loop of one feature, as a function: consecutive triples of the feature's position list (strand and joins
